@@ -47,6 +47,7 @@ def generate() -> str:
         nm = fn.args.args[0].arg
         cur = ".name"
         dirvar = None
+        locals_ = {}
         for st in fn.body:
             if isinstance(st, ast.Expr) and isinstance(st.value, ast.Constant):
                 continue
@@ -56,8 +57,12 @@ def generate() -> str:
                     cur = expr(st.value, nm, cur)
                 else:
                     v = src(st.value)
-                    if "__file__" in v and v.endswith(".parent.parent"):
+                    for ln, lv in locals_.items():          # locals substituted
+                        v = re.sub(rf"\b{re.escape(ln)}\b", lv, v)
+                    if "__file__" in v and v.endswith(".parent.parent") and v.startswith("Path("):
                         dirvar, directory = t, "two levels above this file (the package directory)"
+                    elif "__file__" in v and "Path(" not in v:
+                        locals_[t] = "(" + v + ")"               # a string derived from __file__, used further down
                     else:
                         dirvar, directory = t, "other: " + v[:120]
                 continue
